@@ -54,6 +54,7 @@ type Model struct {
 	Visits  []simrt.Visit
 	vpos    int
 	Desync  bool
+	OrderUnknown bool // the field visit order of the real execution is not observable
 	Issues  []MIssue
 	Nodes   []*MNode
 	Abstain []string
@@ -272,6 +273,11 @@ func DefaultCode(t TestSpec) string {
 }
 
 func modelEqual(a, b any) bool {
+	if fa, ok := a.(float64); ok {
+		if fb, ok2 := b.(float64); ok2 && fa != fa && fb != fb {
+			return true // both NaN: the same value for our purposes
+		}
+	}
 	if ta, ok := a.(time.Time); ok {
 		tb, ok2 := b.(time.Time)
 		return ok2 && ta.Equal(tb)
@@ -473,6 +479,19 @@ func setModel(dst reflect.Value, n *Node, val any) {
 
 func (m *Model) abstain(why string) { m.Abstain = append(m.Abstain, why) }
 
+// required reports the issue of an absent required node, honouring the options given to Required()/NotNil().
+func (m *Model) required(n *Node, path, code string) {
+	if o := n.ReqOpt; o != nil {
+		if o.Code != "" {
+			code = o.Code
+		}
+		if o.Path != "" {
+			path = o.Path
+		}
+	}
+	m.issue(n, path, code, "required", -1)
+}
+
 func (m *Model) issue(n *Node, path, code, why string, idx int) {
 	m.Issues = append(m.Issues, MIssue{Path: path, Code: code, Type: n.ZType(), Node: n.ID, Why: why, Idx: idx})
 }
@@ -544,6 +563,11 @@ func (m *Model) posts(n *Node, path string, mn *MNode, issuesBefore int) {
 	if len(n.PTs) == 0 {
 		return
 	}
+	if m.OrderUnknown {
+		// "only if no issue exists at that moment" cannot be evaluated without the visit order
+		m.abstain("PostTransform gating with an unobservable field visit order")
+		return
+	}
 	if len(m.Issues) > 0 {
 		for i := range n.PTs {
 			m.Forbid = append(m.Forbid, MCall{Node: n.ID, Kind: "pt", Idx: i})
@@ -601,7 +625,7 @@ func (m *Model) Eval(n *Node, in MIn, path string) *MNode {
 		if absent {
 			mn.Absent = true
 			if n.Req {
-				m.issue(n, path, "not_nil", "required", -1)
+				m.required(n, path, "not_nil")
 				mn.Issues++
 				mn.Failed = true
 			} else {
@@ -660,7 +684,7 @@ func (m *Model) evalPrim(n *Node, in MIn, path string, mn *MNode) {
 				mn.Caught = true
 				mn.Val, mn.HasVal = typedVal(n, *n.Catch), true
 			} else {
-				m.issue(n, path, "required", "required", -1)
+				m.required(n, path, "required")
 				mn.Issues++
 			}
 			return
@@ -749,7 +773,7 @@ func (m *Model) evalSlice(n *Node, in MIn, path string, mn *MNode) {
 				elems = append(elems, MIn{V: e})
 			}
 		case n.Req:
-			m.issue(n, path, "required", "required", -1)
+			m.required(n, path, "required")
 			mn.Issues++
 			mn.Failed = true
 			for i := range n.PTs {
@@ -761,7 +785,7 @@ func (m *Model) evalSlice(n *Node, in MIn, path string, mn *MNode) {
 			m.posts(n, path, mn, 0)
 			return
 		}
-	} else if in.V.K == "l" {
+	} else if in.V.K == "l" || in.V.K == "tl" || in.V.K == "sl" {
 		for _, e := range in.V.L {
 			elems = append(elems, MIn{V: e})
 		}
